@@ -3,7 +3,8 @@ across threads.
 
 (a) sequential: one shared instance of each reusable kind; the query sequence
     over a pool of different contractions is solver-chosen (every sequence of
-    length <= K is a path); both `search` and `__call__`.
+    length <= K is a path); both `search` and `__call__`; the caller passes fresh
+    objects or (solver-chosen) its own live containers edited in place.
 (b) concurrent: real threads issue queries through one shared instance; a
     scheduler serialises them and every function entry and return inside
     cotengra/reusable.py, cotengra/presets.py and the search entry points of
@@ -133,6 +134,16 @@ def judge(q, mode, res):
     return None
 
 
+def fill_carrier(carrier, q):
+    """the caller's own containers, edited in place to hold contraction q (same objects, new content)"""
+    li, lo, ls = carrier
+    li[:] = [tuple(t) for t in q[0]]
+    lo[:] = list(q[1])
+    ls.clear()
+    ls.update(q[2])
+    return carrier
+
+
 def run_a(item, rec):
     tier = item["tier"]
     K = 3 if tier == "quick" else 4
@@ -142,13 +153,18 @@ def run_a(item, rec):
     def harness(ctx):
         opt = make_instance(kind)
         seq = []
+        # how the caller hands its contraction over: fresh objects per query, or one live
+        # inputs list / output list / size dict that it edits in place between queries
+        live = symx.choose("live", 2)
+        carrier = ([], [], {})
         for k in range(K):
             qi = item["first"] if k == 0 else symx.choose(f"q{k}", len(POOL))
             mode = ["search", "call"][symx.choose(f"m{k}", 2)]
             seq.append([qi, mode])
             q = POOL[qi]
+            args = fill_carrier(carrier, q) if live else q
             try:
-                res = opt.search(*q) if mode == "search" else opt(*q)
+                res = opt.search(*args) if mode == "search" else opt(*args)
                 prob = judge(q, mode, res)
             except (symx.PathAbort, symx.Unsupported, symx.Budget):
                 raise
@@ -156,7 +172,7 @@ def run_a(item, rec):
                 prob = f"raised {e!r}"
             seqc = [list(s) for s in seq]
             rec.refute(ctx, prob is not None, "answer belongs to the query",
-                       lambda m, prob=prob, seqc=seqc: dict(case=dict(case0, seq=seqc), problem=prob, signature=["C16a", kind, str(seqc)]))
+                       lambda m, prob=prob, seqc=seqc: dict(case=dict(case0, seq=seqc, live=live), problem=prob, signature=["C16a", kind, str(seqc), live]))
             if prob is not None:
                 return
 
@@ -508,10 +524,12 @@ def replay(v):
         return False, "nested queries answered correctly"
     if case["part"] == "a":
         opt = make_instance(case["kind"])
+        carrier = ([], [], {})
         for qi, mode in case["seq"]:
             q = POOL[qi]
+            args = fill_carrier(carrier, q) if case.get("live") else q
             try:
-                res = opt.search(*q) if mode == "search" else opt(*q)
+                res = opt.search(*args) if mode == "search" else opt(*args)
                 prob = judge(q, mode, res)
             except Exception as e:  # noqa
                 prob = f"raised {e!r}"
